@@ -1843,12 +1843,12 @@ Proof.
     assert (G : forall x, In x (filter (fun t => negb (bad t)) (items l)) -> tcost x <= c /\ tgas x <= g).
     { intros x Hx. apply filter_In in Hx. destruct Hx as [_ Hb]. unfold bad in Hb. lia. }
     destruct (strict l); [destruct (filter bad (items l))|]; inversion H; subst; clear H; unfold caps_ok; cbn [items costcap gascap];
-      split; rewrite Forall_forall; intros x Hx; try (apply filter_In in Hx; destruct Hx as [Hx _]); apply G; auto.
+      split; rewrite Forall_forall; intros x Hx; first [apply G; exact Hx | apply filter_In in Hx; destruct Hx as [Hx _]; apply G; exact Hx].
 Qed.
 Lemma tl_cap_caps : forall l k drops l', tl_cap l k = Some (drops, l') -> caps_ok l -> caps_ok l'.
 Proof.
   intros l k drops l' H C. unfold tl_cap in H. destruct (Z.of_nat (length (items l)) <=? k); [inversion H; subst; auto|].
-  destruct (k <? 0); [discriminate|]. inversion H; subst. eapply caps_sub; eauto. cbn. intros x Hx. eapply firstn_In; eauto.
+  destruct (k <? 0); [discriminate|]. inversion H; subst. eapply caps_sub; eauto. cbn. intros x Hx. rewrite <- (firstn_skipn (Z.to_nat k) (items l)). apply in_or_app. auto.
 Qed.
 Lemma tl_remove_caps : forall o l t b invs l', tl_remove o l t = (b, invs, l') -> caps_ok l -> caps_ok l'.
 Proof.
@@ -1915,7 +1915,7 @@ Proof.
   destruct (tl_add (list_of (queue p) (tfrom t) false) t (c_bump (conf p))) as [[ins old] l'] eqn:E.
   pose proof (tl_add_caps _ _ _ _ _ _ E C0) as C1. destruct ins; cbn [snd].
   - split; [|destruct old; reflexivity]. eapply CS_qset with (p := p) (l' := l'); auto; destruct old; reflexivity.
-  - split; [|reflexivity]. eapply CS_qset with (p := p); eauto; reflexivity.
+  - split; [|reflexivity]. eapply CS_qset with (p := p) (l' := list_of (queue p) (tfrom t) false); auto; reflexivity.
 Qed.
 Lemma enqueue_fold_CS : forall ex p, caps_sound p ->
   caps_sound (fold_left (fun q x => snd (enqueue_tx q x)) ex p) /\ pending (fold_left (fun q x => snd (enqueue_tx q x)) ex p) = pending p.
@@ -1930,12 +1930,10 @@ Proof.
   destruct (CS_list_of p a true H) as [_ C0].
   destruct (tl_add (list_of (pending p) a true) t (c_bump (conf p))) as [[ins old] l'] eqn:E.
   pose proof (tl_add_caps _ _ _ _ _ _ E C0) as C1. destruct ins.
-  - assert (Hpq : pending (pn_set (set_beats (match assoc (thash t) (all (match old with Some ot => all_drop (set_pending p (assoc_set a l' (pending p))) (thash ot) | None => set_pending p (assoc_set a l' (pending p)) end)) with None => all_put (match old with Some ot => all_drop (set_pending p (assoc_set a l' (pending p))) (thash ot) | None => set_pending p (assoc_set a l' (pending p)) end) t | Some _ => (match old with Some ot => all_drop (set_pending p (assoc_set a l' (pending p))) (thash ot) | None => set_pending p (assoc_set a l' (pending p)) end) end) (assoc_set a (clock p + 1) (beats p)) (clock p + 1)) a ((tnonce t + 1) mod two64)) = assoc_set a l' (pending p)) by (destruct old; cbn; match goal with |- context [match ?X with _ => _ end] => destruct X end; reflexivity).
-    clear Hpq.
-    match goal with |- caps_sound ?Q /\ _ => assert (Hq : pending Q = assoc_set a l' (pending p) /\ queue Q = queue p)
+  - match goal with |- caps_sound ?Q /\ _ => assert (Hq : pending Q = assoc_set a l' (pending p) /\ queue Q = queue p)
       by (destruct old; cbn; match goal with |- context [match ?X with _ => _ end] => destruct X end; split; reflexivity) end.
     destruct Hq as [Hp Hq]. split; auto. eapply CS_pset with (p := p); eauto.
-  - split; [|reflexivity]. eapply CS_pset with (p := p); eauto; reflexivity.
+  - split; [|reflexivity]. eapply CS_pset with (p := p) (l' := list_of (pending p) a true); auto; reflexivity.
 Qed.
 Lemma promote_fold_CS : forall a ready p, caps_sound p ->
   caps_sound (fold_left (fun q t => promote_tx q a t) ready p) /\ queue (fold_left (fun q t => promote_tx q a t) ready p) = queue p.
